@@ -20,19 +20,22 @@
     invariance        count_order_independent, count_perm, count_presentation_independent,
                       child_order_independent, reroot_independent, rooting_independent,
                       rooting_tip_independent, consensus_presentation_independent,
-                      consensus_order_independent
+                      consensus_order_independent, consensus_presentation_meets_oracle,
+                      consensus_reroot_independent (arbitrary re-rooting paths, C05's `reroot`)
     rejection         different_taxa_err
     insertion         consensus_splits_partial (one insertion keeps everything, adds at most the
                       new branch), Lemmas: insertSplit_adds (it does add it when compatible)
     ★★ the whole      consensus_splits (for compatible rows), selected_compatible (they are),
                       consensus_exact, consensus_exact_spec (in the Spec's terms)
     bridge to Spec    spec_count_bridge, spec_row_bridge, spec_len_bridge
+    ★★★ oracle        consensus_meets_oracle (splitsOK, supportsOK, lengthsOK of the model's output)
     F34               root_split_pinned_fails
     single-child      single_child_pinned_fails (pinned variant of the defect repaired by 5dad91e)
+    tip-rooted inputs consensus_tip_root, consensus_tip_rooted_meets_oracle, tip_rooted_accepted (5a3a76a)
 
   Hypotheses are `Bool` predicates the driver evaluates and reports as tags:
   `domB` (hyp-dom), `lensOK` (hyp-lensok), `noRepeat` (hyp-norepeat, a consequence of
-  `domB`), `selOK` (hyp-selok, a consequence of `domB` and `1/2 ≤ c`).
+  `domB`), `selOK` (hyp-selok, a consequence of `domB` and `1/2 ≤ c`), `C09S.keysOK` (hyp-keys).
 -/
 import Gotree.Lemmas.C09
 import Gotree.Lemmas.C09Rooting
@@ -44,6 +47,8 @@ import Gotree.Lemmas.C09Bridge
 import Gotree.Lemmas.C09BridgeLen
 import Gotree.Lemmas.C09Singles
 import Gotree.Lemmas.C09SinglesLen
+import Gotree.Lemmas.C09Oracle
+import Gotree.Lemmas.C09Reroot
 
 namespace Gotree.C09
 open Gotree
@@ -76,7 +81,8 @@ theorem consensus_inserts_selected (ord : List Entry → List Entry) (ts : List 
       | .ok r => .ok r
       | .error w => .err w := by
   obtain ⟨_, hn, hidx, _, _⟩ := countAll_index ts cn h
-  unfold consensus consensusG
+  unfold consensus consensusG consensusCore
+  rw [map_rerootTip_of_deg ts hdeg]
   have h1 : (decide (c < 1/2) || decide (c > 1)) = false := by
     simp only [Bool.or_eq_false_iff, decide_eq_false_iff_not, Rat.not_lt]
     exact ⟨hc.1, hc.2⟩
@@ -254,7 +260,8 @@ theorem different_taxa_err (ord : List Entry → List Entry) (t : T) (r : List T
     (hnd : ∀ u ∈ t :: r, (norm u).tipNames.Nodup)
     (hdiff : ∃ u ∈ r, ¬ (norm u).tipNames.Perm (norm t).tipNames) :
     consensus ord (t :: r) c = .err "taxa" := by
-  unfold consensus consensusG
+  unfold consensus consensusG consensusCore
+  rw [map_rerootTip_of_deg (t :: r) (fun u hu => (hdeg u hu).1)]
   have h1 : (decide (c < 1/2) || decide (c > 1)) = false := by
     simp only [Bool.or_eq_false_iff, decide_eq_false_iff_not, Rat.not_lt]
     exact ⟨hc.1, hc.2⟩
@@ -794,5 +801,245 @@ example : (match insertSplit ["d", "e"] 1 1 (starOf (unroot exU1)) with
 theorem single_child_pinned_fails :
     outSplits (consensusPinnedSingles id exSingle (1/2)) = some [] ∧
     outValues (consensus id exSingle (1/2)) = some [(["a", "b"], 1, 4)] := by decide +kernel
+
+/-! ### ★★★ the Spec oracle holds of the model's output -/
+
+/-- The three Spec predicates the driver evaluates on the *implementation's* output
+    (`C09S.splitsOK`, `supportsOK`, `lengthsOK`: the result read through `T.usplits` /
+    `T.usplitsAll` of Spec/Splits.lean) are theorems of the *model's* output: on the domain
+    (`domB`, rooted inputs and single-child nodes included), lengths absent or ≥ 0, threshold
+    in `[1/2, 1]`, any bucket order, the model of `Consensus` succeeds and its tree has the
+    taxa of the collection, its non-trivial unrooted splits are exactly the Spec's selected
+    splits (`expectedSplits`), each with the Spec's frequency as support and the Spec's mean
+    length, and every tip branch has the Spec's mean length.  `keysOK` (the printing by which
+    `canonSet` sorts distinguishes the sides; it fails only for names containing ", ") is
+    needed for the literal list equality in `splitsOK`. -/
+theorem consensus_meets_oracle (ord : List Entry → List Entry) (hord : ∀ l, (ord l).Perm l) (ts : List T) (c : Rat)
+    (hc : 1/2 ≤ c ∧ c ≤ 1) (hdom : domB ts = true) (hl : lensOK ts = true) (hkeys : C09S.keysOK ts = true) :
+    ∃ r, consensus ord ts c = .ok r ∧
+      C09S.splitsOK ts c r = true ∧ C09S.supportsOK ts r = true ∧ C09S.lengthsOK ts r = true := by
+  have hd := dom_of_domB ts hdom
+  have hdeg := deg_of_domB ts hdom
+  obtain ⟨cn, hcn⟩ := countAll_of_dom ts hd
+  obtain ⟨hne, _, _, hfirst, halt, hnd, h2⟩ := countAll_index ts cn hcn
+  have hfm : norm ts.head! ∈ trees ts := by
+    cases ts with
+    | nil => exact absurd rfl hne
+    | cons a b => exact List.mem_map.2 ⟨a, by simp, rfl⟩
+  have h3 := hd.deg _ hfm
+  have htips : (starOf cn.first).tipNames = leavesL (norm ts.head!).kids := by
+    rw [starOf_tipNames cn.first h2, hfirst]
+  have halltips : cn.alltips = leavesL (norm ts.head!).kids := by
+    rw [halt, allTipNames_eq _ (by omega), tipNames_eq_leaves _ (by omega)]
+  have hsel := selOK_of_dom ord hord ts c hc hd
+  obtain ⟨r, hr, inv⟩ := consensus_splits ord ts c hc hdeg cn hcn (by rw [hfirst]; omega)
+    (by rw [htips, halltips]; exact hsel)
+  rw [htips, halltips] at inv
+  have hnr := hd.norepeat
+  have hsx := selected_exact ord hord ts hne c hc hnr
+  have hcount := inner_count _ _ ts.length (selected ord ts c) r _ (fun a h => h) hsel inv
+  refine ⟨r, hr, ?_⟩
+  -- the tips
+  generalize htd : leavesL (norm ts.head!).kids = tips at *
+  have hT : tips.Nodup := by rw [← htd]; exact hd.nodup _ hfm
+  have hN3 : 3 ≤ tips.length := by
+    rw [← htd]; have := leavesL_len (norm ts.head!).kids; omega
+  obtain ⟨b1, b2, b3, b4, b5⟩ := bridge_hyps_norm ts hd
+  have hun : univOf ts = sortN tips := by
+    cases ts with
+    | nil => exact absurd rfl hne
+    | cons t0 rest =>
+      show sortN (norm t0).tipNames = _
+      rw [tipNames_eq_leaves _ (by exact Nat.le_trans (by omega) h3)]
+      exact congrArg sortN htd
+  have hut : ∀ a, a ∈ univOf ts ↔ a ∈ tips := fun a => by rw [hun]; exact (sortN_perm _).mem_iff
+  have htaxa : (C09S.taxa ts).Perm tips :=
+    (List.perm_ext_iff_of_nodup b5 hT).2 fun a => (b4 a).symm.trans (hut a)
+  have hund : (univOf ts).Nodup := by rw [hun]; exact (sortN_perm _).nodup_iff.2 hT
+  have inv_idx := buildIdx_inv (univOf ts) (trees ts)
+  have keyNodup : ∀ x ∈ index ts, x.key.Nodup := fun x hx => by
+    rw [isKey_eq_filter (inv_idx.keys x hx)]; exact hund.filter _
+  have selIff : ∀ x ∈ index ts, (C09S.isSelected ts c (canonSide (C09S.taxa ts) x.key) = true ↔
+      (c < freq ts x.key ∨ count ts x.key = ts.length)) := by
+    intro x hx
+    obtain ⟨h1, h2⟩ := spec_row_bridge ts hdom x hx
+    unfold C09S.isSelected
+    rw [h1, h2]
+    simp
+  have sameLeaves : ∀ u ∈ trees ts, ∀ a, a ∈ leavesL u.kids ↔ a ∈ tips := fun u hu a => by
+    rw [← htd]; exact (hd.same u hu).mem_iff
+  apply oracle_of_inv ts c tips ts.length (selected ord ts c) r hT hN3 htaxa inv hcount hsel
+  · -- rowSpec
+    intro x hx
+    obtain ⟨hxi, hxs⟩ := (hsx x).1 hx
+    refine ⟨keyNodup x hxi, (selIff x hxi).2 hxs, ?_, ?_, ?_⟩
+    · rw [support_eq_freq ts hnr x hxi, (spec_row_bridge ts hdom x hxi).2]
+    · rw [length_eq_mean ts hnr x hxi, (spec_len_bridge ts hdom hl x hxi).2]
+    · -- the canonical side occurs in some tree
+      have hc1 := (spec_row_bridge ts hdom x hxi).1
+      have hpos := (index_is_frequency_table ts hnr x hxi).2.2
+      rw [(index_is_frequency_table ts hnr x hxi).1, ← hc1] at hpos
+      unfold C09S.count at hpos
+      obtain ⟨t, ht⟩ := List.exists_mem_of_length_pos hpos
+      obtain ⟨ht1, ht2⟩ := List.mem_filter.1 ht
+      rw [List.any_eq_true] at ht2
+      obtain ⟨u, hu, hue⟩ := ht2
+      unfold C09S.allSides
+      rw [List.mem_eraseDups, List.mem_flatMap]
+      exact ⟨t, ht1, List.mem_map.2 ⟨u, hu, by simpa using hue⟩⟩
+  · -- rowComplete
+    intro a ha hsa
+    unfold C09S.allSides at ha
+    rw [List.mem_eraseDups, List.mem_flatMap] at ha
+    obtain ⟨t, ht, hta⟩ := ha
+    obtain ⟨u, hu, rfl⟩ := List.mem_map.1 hta
+    obtain ⟨s0, hs0, hs0e⟩ := (usplitsAll_any t u.side).1 (List.any_eq_true.2 ⟨u, hu, by simp⟩)
+    have htn := b1 t ht
+    have hmem := b3 t ht
+    have hbip : HasBip t.tipNames t.splits s0.below := ⟨s0, hs0, Or.inl fun _ _ => Iff.rfl⟩
+    obtain ⟨s1, hs1, hss1⟩ := (hasBip_norm t s0.below htn).1 hbip
+    obtain ⟨x, hx, hxe⟩ := (index_complete ts).1 (norm t) (List.mem_map.2 ⟨t, ht, rfl⟩)
+      (bits (univOf ts) s1.below, s1.e.len) (by
+        unfold edgeKeys; exact List.mem_map.2 ⟨s1, hs1, rfl⟩)
+    have hmu : ∀ a, a ∈ t.tipNames ↔ a ∈ univOf ts := fun a => (hmem a).trans (b4 a).symm
+    have hkx := keyNodup x hx
+    have hb : bits (univOf ts) x.key = x.key := (isKey_eq_filter (inv_idx.keys x hx)).symm
+    have hs0nd : s0.below.Nodup := (below_sublist_L t.kids s0 hs0).nodup (leavesL_nodup_of_tipNames htn)
+    have hs1u : SameSide (univOf ts) s1.below x.key := by
+      have := (eqc_iff _ _ _).1 hxe
+      rw [← hb] at this
+      exact (eqc_bits_iff _ _ _).1 this
+    have hcs : canonSide (C09S.taxa ts) x.key = u.side := by
+      rw [← hs0e]
+      have htp : t.tipNames.Perm (C09S.taxa ts) := (List.perm_ext_iff_of_nodup htn b5).2 hmem
+      rw [canonSide_perm_all htp]
+      have hne' : C09S.taxa ts ≠ [] := by
+        intro h; rw [h] at htaxa; have := htaxa.length_eq; simp at this; omega
+      rw [canonSide_eq_iff _ _ _ _ b5 b5 (fun _ => Iff.rfl) hne' hkx hs0nd]
+      have h1 : SameSide (C09S.taxa ts) s1.below x.key := SameSide.of_mem_iff b4 hs1u
+      have h2 : SameSide (C09S.taxa ts) s1.below s0.below := SameSide.of_mem_iff hmem hss1
+      exact h1.symm'.trans' h2
+    refine ⟨x, (hsx x).2 ⟨hx, (selIff x hx).1 (by rw [hcs]; exact hsa)⟩, hcs⟩
+  · -- tipRow
+    intro a ha
+    obtain ⟨s0, hs0, hs0b⟩ := leaf_entry (norm ts.head!).kids a (by rw [htd]; exact ha)
+    obtain ⟨x, hx, hxe⟩ := (index_complete ts).1 (norm ts.head!) hfm
+      (bits (univOf ts) s0.below, s0.e.len) (by unfold edgeKeys; exact List.mem_map.2 ⟨s0, hs0, rfl⟩)
+    rw [hs0b] at hxe
+    -- the tip branch is in every tree
+    have hcnt : count ts x.key = ts.length := by
+      unfold count countM
+      have hlen : (trees ts).length = ts.length := by simp [trees]
+      rw [← hlen, List.countP_eq_length]
+      intro u hu
+      obtain ⟨s, hs, hsb⟩ := leaf_entry u.kids a ((sameLeaves u hu a).2 ha)
+      rw [hasSplit_iff]
+      exact ⟨s, hs, by rw [hsb]; exact (eqc_iff _ _ _).1 hxe⟩
+    have hxsel : x ∈ selected ord ts c := (hsx x).2 ⟨hx, Or.inr hcnt⟩
+    refine ⟨x, hxsel, ?_⟩
+    have hss : SameSide tips (rowNames tips x) [a] := names_sameSide hut ((eqc_iff _ _ _).1 hxe)
+    have hsz : (rowNames tips x).length = 1 := by
+      have hsl : (rowNames tips x).length = [a].length ∨ (rowNames tips x).length + [a].length = tips.length :=
+        sameSide_length hT (by simp : [a].Nodup) (hT.filter _ : (rowNames tips x).Nodup)
+          (fun y hy => by simp only [List.mem_singleton] at hy; subst hy; exact ha)
+          (fun y hy => (List.mem_filter.1 hy).1) hss
+      simp only [List.length_singleton] at hsl
+      have hso := hsel
+      unfold selOK at hso
+      simp only [Bool.and_eq_true, List.all_eq_true] at hso
+      have := hso.1.1 (rowNames tips x) (List.mem_map.2 ⟨x, hxsel, rfl⟩)
+      simp only [Bool.or_eq_true, beq_iff_eq, Bool.and_eq_true, decide_eq_true_eq] at this
+      rcases this with h | h
+      · exact h
+      · omega
+    obtain ⟨b, hb⟩ := List.length_eq_one_iff.1 hsz
+    rw [hb] at hss ⊢
+    have hbin : b ∈ tips := by
+      have : b ∈ rowNames tips x := by rw [hb]; simp
+      exact (List.mem_filter.1 this).1
+    rw [sameSide_singletons hN3 hT hbin hss]
+  · exact hkeys
+
+
+/-! ### rooting: moves of the root along arbitrary paths -/
+
+/-- The consensus of another presentation `ts'` of the collection `ts` — tree by tree the
+    same tips and the same unrooted split map `T.usplitsAll` (`SameU`) — meets the Spec of
+    `ts`: the same non-trivial splits, supports and lengths (as the oracle reads them). -/
+theorem consensus_presentation_meets_oracle (ord' : List Entry → List Entry) (hord' : ∀ l, (ord' l).Perm l)
+    (ts ts' : List T) (c : Rat) (hc : 1/2 ≤ c ∧ c ≤ 1) (hsame : F2 SameU ts ts')
+    (hdom' : domB ts' = true) (hl' : lensOK ts' = true)
+    (hkeys : C09S.keysOK ts = true) (hkeys' : C09S.keysOK ts' = true) :
+    ∃ r', consensus ord' ts' c = .ok r' ∧
+      C09S.splitsOK ts c r' = true ∧ C09S.supportsOK ts r' = true ∧ C09S.lengthsOK ts r' = true := by
+  obtain ⟨r', hr', ho⟩ := consensus_meets_oracle ord' hord' ts' c hc hdom' hl' hkeys'
+  exact ⟨r', hr', oracle_congr hsame c r' hkeys ho⟩
+
+/-- Root moves along arbitrary paths: if every tree of `ts'` is `Reroot` (C05's model: a
+    fold of `moveRoot` along a child-index path) of the corresponding tree of `ts`, the
+    consensus of `ts'` meets the Spec of `ts`. -/
+theorem consensus_reroot_independent (ord' : List Entry → List Entry) (hord' : ∀ l, (ord' l).Perm l)
+    (ts ts' : List T) (c : Rat) (hc : 1/2 ≤ c ∧ c ≤ 1)
+    (hre : F2 (fun t t' => t.tipNames.Nodup ∧ LensGood t.splits ∧ ∃ p, C05.reroot t p = .ok t') ts ts')
+    (hdom' : domB ts' = true) (hl' : lensOK ts' = true)
+    (hkeys : C09S.keysOK ts = true) (hkeys' : C09S.keysOK ts' = true) :
+    ∃ r', consensus ord' ts' c = .ok r' ∧
+      C09S.splitsOK ts c r' = true ∧ C09S.supportsOK ts r' = true ∧ C09S.lengthsOK ts r' = true := by
+  have hs : F2 SameU ts ts' := by
+    clear hdom' hl' hkeys hkeys'
+    induction hre with
+    | nil => exact F2.nil
+    | cons h _ ih =>
+      obtain ⟨hu, hg, p, hp⟩ := h
+      exact F2.cons (reroot_usplitsAll _ _ p hu hg hp) ih
+  exact consensus_presentation_meets_oracle ord' hord' ts ts' c hc hs hdom' hl' hkeys hkeys'
+
+
+/-! ### input trees rooted at a tip (5a3a76a) -/
+
+/-- `Consensus` first moves a tip root to its neighbour: the consensus of a collection is the
+    consensus of the collection so re-rooted (`rerootTip` is the identity on every tree whose
+    root has two neighbours or more, and idempotent). -/
+theorem consensus_tip_root (ord : List Entry → List Entry) (ts : List T) (c : Rat) :
+    consensus ord ts c = consensus ord (ts.map rerootTip) c := by
+  unfold consensus consensusG
+  rw [List.map_map]
+  have : ts.map (rerootTip ∘ rerootTip) = ts.map rerootTip :=
+    List.map_congr_left fun t _ => rerootTip_idem t
+  rw [this]
+
+/-- Tip-rooted inputs meet the Spec: if the collection re-rooted at the neighbours of its tip
+    roots is in the domain, the consensus of the collection *as given* has exactly the Spec's
+    selected splits of the collection as given (tip root counted as a taxon), with the Spec's
+    supports and lengths. -/
+theorem consensus_tip_rooted_meets_oracle (ord : List Entry → List Entry) (hord : ∀ l, (ord l).Perm l)
+    (ts : List T) (c : Rat) (hc : 1/2 ≤ c ∧ c ≤ 1)
+    (hu : ∀ t ∈ ts, t.tipNames.Nodup ∧ LensGood t.splits)
+    (hdom : domB (ts.map rerootTip) = true) (hl : lensOK (ts.map rerootTip) = true)
+    (hkeys : C09S.keysOK ts = true) (hkeys' : C09S.keysOK (ts.map rerootTip) = true) :
+    ∃ r, consensus ord ts c = .ok r ∧
+      C09S.splitsOK ts c r = true ∧ C09S.supportsOK ts r = true ∧ C09S.lengthsOK ts r = true := by
+  have hs : F2 SameU ts (ts.map rerootTip) := by
+    clear hdom hl hkeys hkeys'
+    induction ts with
+    | nil => exact F2.nil
+    | cons a l ih =>
+      exact F2.cons (rerootTip_sameU a (hu a (by simp)).1 (hu a (by simp)).2)
+        (ih fun t ht => hu t (by simp [ht]))
+  rw [consensus_tip_root]
+  exact consensus_presentation_meets_oracle ord hord ts _ c hc hs hdom hl hkeys hkeys'
+
+/-- A witness: two trees rooted at the tip `a` are accepted (before 5a3a76a the first one alone
+    was rejected, "No tip named a in the index"); the clade (d,e) has support 1 and the mean
+    length (1+3)/2, and the branch of the former root `a` the mean length (2+4)/2. -/
+theorem tip_rooted_accepted :
+    outValues (consensus id exTipRoot (1/2)) = some [(["d", "e"], 1, 2)] ∧
+    (match consensus id exTipRoot (1/2) with
+     | .ok r => (r.splits.filter (·.tip)).map (fun s => (s.below, s.e.len))
+     | _ => []) = [(["a"], 3), (["b"], 1), (["c"], 1), (["d"], 1), (["e"], 2)] := by decide +kernel
+
+
+/- `keysOK` (like `domB`, `lensOK`) is evaluated by the driver on every case (tag hyp-keys);
+   it goes through `List.mergeSort`, which the kernel does not unfold, so no `decide` witness here -/
 
 end Gotree.C09
